@@ -880,8 +880,8 @@ def _refresh_elementwise_output_shape(node: ir.Node) -> None:
     for iv in ins:
         if iv is None:
             continue
-        if _is_scalar_const_value(iv):
-            continue
+        # One-element constants take part in the broadcast like any other
+        # operand: their rank may exceed the rank of the other operands.
         dims = _shape_dims_seq(iv.shape)
         if dims is None:
             continue
